@@ -9,12 +9,30 @@ TRUSTED = ("Trusted: go/packages+go/ssa (x/tools v0.29.0) as the representation 
            "functions listed in the evidence file. Partial correctness only; goroutine schedules are not explored.")
 
 # id -> (claimed?, text, note, technique, design_ref) ; unclaimed -> reason
+TECH = "contract-based deductive verification: WP/symbolic execution over go/ssa, SMT (z3/cvc5)"
+
+def claim(text, notdecided, ref):
+    return dict(text=text, note=TRUSTED + " Not decided by this check: " + notdecided, technique=TECH, ref=ref)
+
 CLAIMS = {
- "C06": dict(text="Deductive proof, for all buffer sizes, read sizes and stream contents, that the replay buffer's Read/Seek keep the "
-                  "abstract-stream invariant (bytes returned are the wrapped reader's stream from the logical position, no gap or duplicate; "
-                  "Seek succeeds only while everything consumed is still replayable).",
-             note=TRUSTED + " The transport's use of the body between attempts is an extern assumption (io.Reader protocol).",
-             technique="contract-based deductive verification: WP/symbolic execution over go/ssa, SMT (z3/cvc5)", ref="DESIGN.md section 4 C06"),
+ "C01": claim("Proof of the request-id correlation chain on the code of both ends: the stand-alone proxy stores, enqueues, serves and answers a request under one id (ServeHTTP, handleAgentGetRequest, handleAgentPostResponse: lookups by the named id, one delivery per upload, receive only from the request's own channel) with the pending table and the id generator used under the mutex; the agent fetches, forwards and binds the response forwarder under the ids of the worker (processOneRequest, its callback, forwardRequest).",
+              "uniqueness of generated ids (probabilistic), interleavings inside net/http, that ReverseProxy writes the backend's answer to the forwarder it is given.", "DESIGN.md section 4 C01"),
+ "C02": claim("Proof for all header maps that the proxy hands the client request to the pending table with exactly its hop-by-hop fields (RFC 7230 list, written in the contract) removed and every other field value, method, URL, Host and body reference untouched (map-range loop invariant with deletion during iteration), that the fetch handler does not modify the pending request (frame), and that the agent changes only the user-id / Authorization fields before the handler chain.",
+              "the four library (de)serialisations (Request.Write, http.ReadRequest, ReverseProxy, net/http server) and hence byte-exact bodies; header keys from net/http are assumed canonical.", "DESIGN.md section 4 C02"),
+ "C04": claim("Proof over all histories of pending-list replies (loop invariant over ghost spawn counts and an abstract LRU view): an id is spawned at most once until the LRU evicts it; fetch, callback and backend hand-off happen exactly once per worker; the proxy enqueues each id once and a poller's reply is exactly the ids it received, in order.",
+              "the groupcache LRU implementation (trusted abstract spec, eviction only on overflow), channel FIFO/exactly-once delivery (Go primitive), schedules of concurrent pollers.", "DESIGN.md section 4 C04"),
+ "C06": claim("Deductive proof, for all buffer sizes, read sizes and stream contents, that the replay buffer's Read/Seek keep the abstract-stream invariant (bytes returned are the wrapped reader's stream from the logical position, no gap or duplicate; Seek succeeds only while everything consumed is still replayable).",
+              "the transport's use of the body between attempts (extern: io.Reader protocol), timing of the previous attempt's reader.", "DESIGN.md section 4 C06"),
+ "C08": claim("Full proof over the whole uint range (64-bit wrap-around exact, float64 rounding modelled, jitter in [0,1)): the delay is >= 1 ns and within 0.9..1.1 of min(2^n ms, 3 s) (+-2 ns), no shift >= 64 and no overflow; the polling loop sleeps exactly that delay after every failed list call before the next one, counts consecutive failures and resets on success (ghost monitors + loop invariants).",
+              "that time.Sleep sleeps; the distribution of the jitter; a counter wrap after 2^64 consecutive failures.", "DESIGN.md section 4 C08"),
+ "C09": claim("Proof for all header maps and flag values that the request given to the handler chain carries exactly one user-id value equal to the proxy-asserted user when forwarding is on, and no Authorization field when stripping is on, with every other field unchanged.",
+              "canonical header keys (net/http), what gorilla adds to a websocket handshake.", "DESIGN.md section 4 C09"),
+ "C15": claim("Proof for all sizes and segmentations: bytes returned by Read followed by the bytes kept are exactly the buffer (or the one non-empty decoded text frame) the call started with - nothing lost, duplicated or reordered; frames are decoded only when nothing is buffered and only text frames; Write sends exactly one text frame with the hex of exactly its argument and touches none of Read's state (disjoint frames).",
+              "gorilla framing, hex codec inverse pair, io.Copy, TCP, isolation between connections.", "DESIGN.md section 4 C15"),
+ "C18": claim("Full functional proof of longest-prefix selection for all backend sets, prefix lists and paths (nested loop invariants with existential witness; ties unranked as in the property).",
+              "datastore query semantics, the liveness window and user/shared fallback in LookupBackend (not yet under contract).", "DESIGN.md section 4 C18"),
+ "C20": claim("Proof over all health-check histories (ghost consecutive-failure counter): the agent exits exactly when the count reaches max(1, threshold) and a success resets it; start-up returns only after a passing check; a check passes iff the probe succeeded with status 200; a pending-list call happens only after the polling context was seen live, and workers do not receive that context.",
+              "signal timing relative to request phases, whether in-flight requests finish within the grace period, real time, process exit status (schedules / OS).", "DESIGN.md section 4 C20"),
 }
 
 NOT_APPLICABLE = {
